@@ -9,9 +9,9 @@ namespace Micromap
 open SetAlg Dict
 variable {K V Q : Type}
 
-/-- `Clone` respects `Eq`: clones compare like their sources (needed only for "a clone has unique
-    keys", which no law of `Eq` alone implies). -/
-def Env.CloneOK (E : Env K V Q) : Prop := ∀ n m a b, E.keq (E.clK n a) (E.clK m b) = E.keq a b
+/-- `Clone` respects `Eq`: a clone compares equal to its source (needed only for "a clone has
+    unique keys", which no law of `Eq` alone implies). -/
+def Env.CloneOK (E : Env K V Q) : Prop := ∀ n k, E.keq (E.clK n k) k = true
 
 /-- lawful `Eq`/`Borrow` and a `Clone` that respects them. -/
 def Env.Good (E : Env K V Q) : Prop := E.Lawful ∧ E.CloneOK
@@ -60,6 +60,23 @@ theorem OpInv.of_cb {E : Env K V Q} {m : SM K V Q α} {tr Qv} (h : CbOk m tr Qv)
   refine Sat.mono (h s) ?_ ?_
   · intro a s' ⟨h1, _, _⟩; exact ⟨h1 ▸ hs, by rw [h1]⟩
   · intro c s' ⟨h1, _⟩; exact ⟨h1 ▸ hs, by rw [h1]⟩
+
+/-- clean-up by something that leaves the container alone (drops of locals) keeps the invariant. -/
+theorem OpInv.unwindWith {E : Env K V Q} {cleanup : SM K V Q Unit} {body : SM K V Q α} {tc Qc}
+    (hc : CbOk cleanup tc Qc) (hb : OpInv E body) : OpInv E (Micromap.unwindWith cleanup body) := by
+  intro s hs
+  refine Sat.unwindWith (hb s hs) ?_
+  intro c s' ⟨hI, hcap⟩
+  refine Sat.mono (hc.unw (s'.setUnw true) rfl) ?_ (fun _ _ h => h)
+  intro _ s'' ⟨g1, _, _⟩
+  have : (s''.setUnw s'.w.unwinding).r = s'.r := by simpa using g1
+  exact ⟨this ▸ hI, by rw [this]; exact hcap⟩
+
+theorem OpInv.ite {E : Env K V Q} {c : Prop} [Decidable c] {m₁ m₂ : SM K V Q α} (h₁ : OpInv E m₁)
+    (h₂ : OpInv E m₂) : OpInv E (if c then m₁ else m₂) := by
+  split
+  · exact h₁
+  · exact h₂
 
 variable (E : Env K V Q)
 
